@@ -61,14 +61,14 @@ pub fn replay_post(prop: &str, case: &CaseId, file: &Value) -> i32 {
         crate::core::silence_panics();
         let rc = hist::replay(file);
         if rc == 1 {
-            println!("VIOLATION property={prop} replay=(given file)");
+            println!("VIOLATION property={prop} replay={}", std::env::args().nth(3).unwrap_or_default());
         }
         return rc;
     }
     if case.kind == "post:mem" {
         let rc = mem::replay(case);
         if rc == 1 {
-            println!("VIOLATION property={prop} replay=(given file)");
+            println!("VIOLATION property={prop} replay={}", std::env::args().nth(3).unwrap_or_default());
         }
         return rc;
     }
@@ -92,7 +92,7 @@ pub fn replay_post(prop: &str, case: &CaseId, file: &Value) -> i32 {
         for f in &ctx.fails {
             println!("  {}", f.what);
         }
-        println!("VIOLATION property={prop} replay=(given file)");
+        println!("VIOLATION property={prop} replay={}", std::env::args().nth(3).unwrap_or_default());
         return 1;
     }
     eprintln!("gv: no post-phase replay for this case kind");
